@@ -951,13 +951,50 @@ func (w *world) tDestroyClientIDInSeq(target *incM) *tmpl {
 var currentSID = nfsv4.Stateid4{Seqid: 1}
 
 // tOpenThen: OPEN followed, in the same COMPOUND, by an operation that
-// uses the "current state ID" special value (RFC 8881 section 16.2.3.1.2):
-// READ, WRITE or CLOSE.
-func (w *world) tOpenThen(inc *incM, name, owner string, acc uint32, then string) *tmpl {
+// uses the "current state ID" special value (RFC 8881 section 16.2.3.1.2),
+// optionally with operations in between that change the current file
+// handle. via:
+//
+//	none          the operation follows the OPEN directly;
+//	save_restore  SAVEFH, PUTFH other, RESTOREFH: the saved current state
+//	              ID comes back with the saved file handle;
+//	putfh_other, putfh_same, putrootfh, lookup_other, lookup_same
+//	              the current file handle is set anew, which invalidates
+//	              the current state ID: a state ID is honoured only for
+//	              the file it was issued for, so the operation must fail
+//	              with NFS4ERR_BAD_STATEID and leave everything in place.
+func (w *world) tOpenThen(inc *incM, name, owner string, acc uint32, then, via string, otherFH []byte, otherName string) *tmpl {
 	t := w.tOpen(inc, name, owner, acc, "nocreate")
 	t.kind = "open_then_" + then
-	t.desc += "; " + strings.ToUpper(then) + "(current state ID)"
 	t.parkOK = nil
+	sameLeaf := w.lookupTruth(name)
+	if sameLeaf == nil && via == "putfh_same" {
+		via = "none"
+	}
+	var between []nfsv4.NfsArgop4
+	switch via {
+	case "save_restore":
+		between = []nfsv4.NfsArgop4{&nfsv4.NfsArgop4_OP_SAVEFH{}, opPutFH(otherFH), &nfsv4.NfsArgop4_OP_RESTOREFH{}}
+		t.desc += fmt.Sprintf("; SAVEFH; PUTFH %s; RESTOREFH", w.fhName(otherFH))
+	case "putfh_other":
+		between = []nfsv4.NfsArgop4{opPutFH(otherFH)}
+		t.desc += "; PUTFH " + w.fhName(otherFH)
+	case "putfh_same":
+		otherFH = sameLeaf.handleCopy()
+		between = []nfsv4.NfsArgop4{opPutFH(otherFH)}
+		t.desc += "; PUTFH " + w.fhName(otherFH) + " (the same file)"
+	case "putrootfh":
+		between = []nfsv4.NfsArgop4{&nfsv4.NfsArgop4_OP_PUTROOTFH{}}
+		t.desc += "; PUTROOTFH"
+	case "lookup_other", "lookup_same":
+		if via == "lookup_same" {
+			otherName = name
+		}
+		between = []nfsv4.NfsArgop4{&nfsv4.NfsArgop4_OP_PUTROOTFH{}, &nfsv4.NfsArgop4_OP_LOOKUP{Oplookup: nfsv4.Lookup4args{Objname: otherName}}}
+		t.desc += fmt.Sprintf("; PUTROOTFH; LOOKUP %q", otherName)
+	}
+	preserved := via == "none" || via == "save_restore"
+	t.desc += "; " + strings.ToUpper(then) + "(current state ID)"
 	var last nfsv4.NfsArgop4
 	bit := accR
 	switch then {
@@ -968,16 +1005,51 @@ func (w *world) tOpenThen(inc *incM, name, owner string, acc uint32, then string
 		last = &nfsv4.NfsArgop4_OP_WRITE{Opwrite: nfsv4.Write4args{Stateid: currentSID, Offset: 0, Stable: nfsv4.FILE_SYNC4, Data: []byte{0x33}}}
 	case "close":
 		last = &nfsv4.NfsArgop4_OP_CLOSE{Opclose: nfsv4.Close4args{OpenStateid: currentSID}}
+	case "setattr":
+		last = &nfsv4.NfsArgop4_OP_SETATTR{Opsetattr: nfsv4.Setattr4args{Stateid: currentSID, ObjAttributes: sizeAttr(2)}}
+	case "downgrade":
+		last = &nfsv4.NfsArgop4_OP_OPEN_DOWNGRADE{OpopenDowngrade: nfsv4.OpenDowngrade4args{OpenStateid: currentSID, ShareAccess: accToWire(acc), ShareDeny: nfsv4.OPEN4_SHARE_DENY_NONE}}
+	case "lock":
+		last = &nfsv4.NfsArgop4_OP_LOCK{Oplock: nfsv4.Lock4args{Locktype: nfsv4.READ_LT, Offset: 0, Length: 1, Locker: &nfsv4.Locker4_TRUE{OpenOwner: nfsv4.OpenToLockOwner4{OpenStateid: currentSID, LockOwner: nfsv4.LockOwner4{Clientid: inc.clientID, Owner: []byte("Lcur")}}}}}
 	}
-	t.ops = append(t.ops, last)
+	if !preserved {
+		t.kind = "open_switchfh_then_" + then
+	}
+	t.ops = append(append(t.ops, between...), last)
+	lastIdx := len(t.ops) - 1
 	openPredict, openDone := t.predict, t.onDone
 	t.predict = func(c *call) {
 		openPredict(c)
 		if t.expect[1][0] != nfsv4.NFS4_OK {
 			return
 		}
+		// The operations that move the current file handle.
+		for _, op := range between {
+			st := nfsv4.NFS4_OK
+			switch o := op.(type) {
+			case *nfsv4.NfsArgop4_OP_PUTFH:
+				if via == "putfh_same" {
+					// The file was opened a moment ago.
+				} else {
+					st, _ = w.predictPutFH(o.Opputfh.Object)
+				}
+			case *nfsv4.NfsArgop4_OP_LOOKUP:
+				if w.lookupTruth(o.Oplookup.Objname) == nil {
+					st = nfsv4.NFS4ERR_NOENT
+				}
+			}
+			t.expect = append(t.expect, one(st))
+			if st != nfsv4.NFS4_OK {
+				return
+			}
+		}
 		st := nfsv4.NFS4_OK
-		if then != "close" {
+		if !preserved {
+			// No current state ID any more: nothing may be honoured.
+			st = nfsv4.NFS4ERR_BAD_STATEID
+			w.label("stateid_rejected:current_after_filehandle_change")
+			w.label("current_stateid_after:" + via)
+		} else if then != "close" {
 			// The access of the open state after this OPEN.
 			access := acc
 			if leaf, _ := t.data["leaf"].(*countLeaf); leaf != nil {
@@ -993,15 +1065,21 @@ func (w *world) tOpenThen(inc *incM, name, owner string, acc uint32, then string
 	}
 	t.onDone = func(c *call, res []nfsv4.NfsResop4) {
 		openDone(c, res)
-		if len(res) == 4 && then == "close" && resStatus(res[3]) == nfsv4.NFS4_OK {
+		if len(res) != lastIdx+1 {
+			return
+		}
+		if then == "close" && resStatus(res[lastIdx]) == nfsv4.NFS4_OK {
 			fh := res[2].(*nfsv4.NfsResop4_OP_GETFH).Opgetfh.(*nfsv4.Getfh4res_NFS4_OK).Resok4.Object
 			if o := inc.opens[owner+"|"+string(fh)]; o != nil {
 				w.modelClose(o, "closed")
 				w.label("close_ok")
 			}
 		}
-		if len(res) == 4 {
+		if preserved {
 			w.label("current_stateid_used:" + then)
+			if via == "save_restore" {
+				w.label("current_stateid_restored_by_restorefh")
+			}
 		}
 	}
 	return t
